@@ -312,4 +312,34 @@ theorem SSE1.refused_or_correct (raw : RawCfg) (lv : Leaves) (hl : LeafLaws lv) 
       exact Or.inr ⟨edb, t', rfl, fun h2 hl8 hk hidl hsz hfresh =>
         C01.SSE1.search_stored_valid raw cfg hc lv hl h2 hl8 K1 K2 K3 K4 db t t' edb hs hk hidl hkeys hvalid w ids hm hsz hfresh⟩
 
+
+/-- DP17: refused, or loud at setup, or — under the run's distinctness facts and the trial-decryption hypothesis of
+    `C01.DP17.search_stored` — the search of a stored keyword returns exactly its identifiers (as a set) -/
+theorem DP17.refused_or_correct (raw : RawCfg) (lv : Leaves) (hl : LeafLaws lv) (k1 k2 k3 : Bytes) (db : DB) (t : Tape)
+    (hkeys : (db.map (·.1)).Nodup) (hperm : DP17.PermsGood t) (w : Bytes) (ids : List Bytes) (hm : (w, ids) ∈ db) :
+    (∃ e, DP17.cfgBuild raw = .error e) ∨
+    ∃ cfg, DP17.cfgBuild raw = .ok cfg ∧
+      ((∃ e, DP17.setup cfg lv [k1, k2, k3] db t = .error e) ∨
+       ∃ edb t', DP17.setup cfg lv [k1, k2, k3] db t = .ok (edb, t') ∧
+         ((∀ p ∈ db, ∀ id ∈ p.2, (id.length : Int) = cfg.idSize) →
+          (∀ levels, DP17.levelsOf cfg db.total = .ok levels → DP17.KeyInj cfg lv k1 levels db) →
+          (∀ levels, DP17.levelsOf cfg db.total = .ok levels → ∀ b, Draw.bytes b ∈ t → ∀ w ids c, (w, ids) ∈ db → 1 ≤ c →
+            c ≤ DP17.nChunks cfg levels ids → DP17.htKey cfg lv k1 w c ≠ .ok b) →
+          ∀ tag vtag etag, DP17.token cfg lv [k1, k2, k3] w = .ok [tag, vtag, etag] →
+            DP17.ProbesClean cfg lv edb tag vtag etag ids →
+            (∀ levels, DP17.levelsOf cfg db.total = .ok levels → ∀ c, DP17.nChunks cfg levels ids < c → c ≤ cfg.L.toNat →
+              ∃ key, DP17.hashH cfg lv (tag ++ natToBytesMin c) = .ok key ∧ edb.HT.get key = none) →
+            ∃ res, DP17.search cfg lv edb [tag, vtag, etag] = .ok res ∧ ∀ id, id ∈ res ↔ id ∈ ids)) := by
+  cases hc : DP17.cfgBuild raw with
+  | error e => exact Or.inl ⟨e, rfl⟩
+  | ok cfg =>
+    refine Or.inr ⟨cfg, rfl, ?_⟩
+    cases hs : DP17.setup cfg lv [k1, k2, k3] db t with
+    | error e => exact Or.inl ⟨e, rfl⟩
+    | ok r =>
+      obtain ⟨edb, t'⟩ := r
+      exact Or.inr ⟨edb, t', rfl, fun hidl hinj hfresh tag vtag etag htk hclean hbeyond =>
+        C01.DP17.search_stored raw cfg hc lv hl k1 k2 k3 db t t' edb hs hkeys hidl hinj hperm hfresh w ids hm tag vtag etag htk
+          hclean hbeyond⟩
+
 end SSEPy.C08
